@@ -28,6 +28,7 @@ import YtkProofs.ResolverEval
 import YtkProofs.ResolverNested
 import YtkProofs.ResolverRelex
 import YtkProofs.ResolverNestedConv
+import YtkProofs.GapResolverStr
 
 namespace Ytk.C11
 open Ytk.Resolver
@@ -888,5 +889,41 @@ theorem nonvacuous_evalT_cycle :
     The harness compares with an independently written Go recursive-descent reference on the full
     grammar.
 -/
+
+/-! ## Round 7b: STRING level (the lexer), every delimiter triple -/
+
+/-- Rendering the lexed tokens gives the string back — for EVERY delimiter triple (empty,
+    overlapping or equal delimiters included) and EVERY string.  (The driver only checks
+    `unlex d (lex d s) == s` dynamically, field `rt`.) -/
+theorem unlex_lex (d : Delims) (s : List Char) : unlex d (lex d s) = s := unlex_lex' d s
+
+/-- If the prefix STRING does not occur in `s`, no prefix TOKEN is lexed. -/
+theorem lex_no_pre_of_not_infix (d : Delims) (s : List Char) (h : ¬ d.pre <:+: s) : Tok.pre ∉ lex d s :=
+  lex_no_pre' d s h
+
+/-- Resolve(s) == s when s has no prefix — at STRING level, for every configured prefix, suffix
+    and separator `d`, every lookup table, every `norm` and every positive fuel: the run of the
+    driver (`lex d`, `resolveTop`, `unlex d`) on a string in which the prefix string does not
+    occur ends with `ok` and renders to `s` itself. -/
+theorem resolve_string_noPrefix (d : Delims) (n : Nat) (s : List Char) (h : ¬ d.pre <:+: s) :
+    resolveTop norm (n + 1) tbl (lex d s) = .ok (lex d s) ∧
+      ∀ t, resolveTop norm (n + 1) tbl (lex d s) = .ok t → unlex d t = s := by
+  have h1 : resolveTop norm (n + 1) tbl (lex d s) = .ok (lex d s) :=
+    resolve_noPre norm tbl n (lex d s) [] (lex_no_pre_of_not_infix d s h)
+  refine ⟨h1, fun t ht => ?_⟩
+  rw [h1] at ht
+  cases ht
+  exact unlex_lex d s
+
+/-- the hypothesis of `resolve_string_noPrefix` on a string that holds BOTH characters of the
+    two-character prefix `${`, but not next to each other (`a$b{c}:`): the lone `$` and `{` are
+    lexed as plain characters, the suffix and the separator as tokens -/
+theorem nonvacuous_resolve_string_noPrefix :
+    let d : Delims := ⟨['$', '{'], ['}'], [':']⟩
+    let s := ['a', '$', 'b', '{', 'c', '}', ':']
+    ¬ d.pre <:+: s ∧ '$' ∈ s ∧ '{' ∈ s ∧
+      lex d s = [.ch 'a', .ch '$', .ch 'b', .ch '{', .ch 'c', .suf, .sep] ∧
+      resolveTop (relex d) 1 [(lex d ['b'], lex d ['X'])] (lex d s) = .ok (lex d s) := by
+  decide +kernel
 
 end Ytk.C11
